@@ -1,6 +1,7 @@
 #![allow(dead_code)]
 use opwv::props;
 use opwv::engine;
+use opwv::outln;
 
 use engine::*;
 use std::path::PathBuf;
@@ -38,13 +39,45 @@ macro_rules! dispatch {
     };
 }
 
+/// Deterministic seed corpora for the libFuzzer targets (committed under fuzz/seeds/).
+fn gen_corpus(fuzz_dir: &std::path::Path) {
+    use proptest::strategy::{Strategy, ValueTree};
+    use proptest::test_runner::TestRunner;
+    let mut runner = TestRunner::deterministic();
+    let y = opwv::props::c19::corpus_strategy();
+    let u = opwv::props::c20::corpus_strategy();
+    for i in 0..30 {
+        let doc = y.new_tree(&mut runner).unwrap().current();
+        std::fs::write(fuzz_dir.join(format!("seeds/yaml_bytes/gen-{:02}.yaml", i)), doc).unwrap();
+        let doc = u.new_tree(&mut runner).unwrap().current();
+        std::fs::write(fuzz_dir.join(format!("seeds/urdf_bytes/gen-{:02}.urdf", i)), doc).unwrap();
+    }
+    let mut state: u64 = 0x0123_4567_89ab_cdef;
+    for i in 0..40 {
+        let mut b = Vec::new();
+        for _ in 0..256 {
+            state = state.wrapping_mul(6364136223846793005).wrapping_add(1442695040888963407);
+            b.push((state >> 33) as u8);
+        }
+        if i % 4 == 0 {
+            // tame prefix: dof 6, default signs, selector bytes choosing "scaled small number"
+            for k in 0..b.len() {
+                if k % 3 == 2 {
+                    b[k] = 2;
+                }
+            }
+        }
+        std::fs::write(fuzz_dir.join(format!("seeds/ik_struct/gen-{:02}.bin", i)), b).unwrap();
+    }
+}
+
 fn main() {
     let args: Vec<String> = std::env::args().collect();
     if args.len() < 3 {
         usage();
     }
     let cmd = args[1].as_str();
-    let id = args[2].to_uppercase();
+    let id = if cmd == "gencorpus" { String::new() } else { args[2].to_uppercase() };
     silence_stdout();
     let code = match cmd {
         "run" => {
@@ -55,6 +88,7 @@ fn main() {
             let mut seed: u64 = std::env::var("VERIF_SEED").ok().and_then(|s| s.trim().parse::<i64>().ok()).map(|x| x as u64).unwrap_or(20260927);
             let mut evidence: Option<PathBuf> = None;
             let mut scale = 1.0f64;
+            let mut fuzz_summary: Option<PathBuf> = None;
             let mut i = 3;
             while i < args.len() {
                 match args[i].as_str() {
@@ -74,6 +108,10 @@ fn main() {
                         i += 1;
                         evidence = args.get(i).map(PathBuf::from);
                     }
+                    "--fuzz-summary" => {
+                        i += 1;
+                        fuzz_summary = args.get(i).map(PathBuf::from);
+                    }
                     "--scale" => {
                         i += 1;
                         scale = args.get(i).and_then(|s| s.parse().ok()).unwrap_or_else(|| usage());
@@ -83,7 +121,7 @@ fn main() {
                 i += 1;
             }
             let evidence = evidence.unwrap_or_else(|| std::env::var("VERIF_EVIDENCE_DIR").map(PathBuf::from).unwrap_or_else(|_| verif_root().join("evidence")).join(format!("{}.json", id)));
-            let ra = RunArgs { tier, seed, evidence, scale };
+            let ra = RunArgs { tier, seed, evidence, scale, fuzz_summary };
             dispatch!(id.as_str(), run_property, ra)
         }
         "replay" => {
@@ -91,7 +129,36 @@ fn main() {
                 usage();
             }
             let path = PathBuf::from(&args[3]);
-            dispatch!(id.as_str(), replay_property, &path)
+            // raw libFuzzer artifact (not a JSON replay file)?
+            let raw = std::fs::read(&path).unwrap_or_default();
+            let is_json = serde_json::from_slice::<serde_json::Value>(&raw).map(|v| v.is_object()).unwrap_or(false);
+            if !is_json && ["C01", "C19", "C20"].contains(&id.as_str()) {
+                std::panic::set_hook(Box::new(|_| {}));
+                let r = match id.as_str() {
+                    "C01" => opwv::fuzzdec::ik_struct(&raw),
+                    "C19" => opwv::fuzzdec::yaml_bytes(&raw),
+                    _ => opwv::fuzzdec::urdf_bytes(&raw),
+                };
+                let _ = std::panic::take_hook();
+                match r {
+                    Ok(()) => {
+                        outln!("REPLAY-OK property={} file={} (raw fuzz artifact, {} bytes)", id, path.display(), raw.len());
+                        0
+                    }
+                    Err(v) => {
+                        outln!("violated clause: {}", v.clause);
+                        outln!("detail: {}", v.detail);
+                        outln!("VIOLATION property={} replay={}", id, path.display());
+                        1
+                    }
+                }
+            } else {
+                dispatch!(id.as_str(), replay_property, &path)
+            }
+        }
+        "gencorpus" => {
+            gen_corpus(&PathBuf::from(&args[2]));
+            0
         }
         _ => usage(),
     };
